@@ -11,7 +11,7 @@ FNS = ["mpi_add", "mpi_sub", "mpi_mul", "mpi_div", "mpi_neg", "mpi_pos", "mpi_ab
        "mpi_pow_int", "mpi_delta", "mpi_mid"]
 # elementary functions on intervals: the model takes the point-function values recorded from the live call as inputs
 ELEM = ["mpi_outward", "mpi_exp_from", "mpi_log_from", "mpi_cos_sin_from", "mpi_finalize", "mpi_tan_from", "mpi_cot_from",
-        "mpi_pow_from", "mpi_cosh_sinh_from"]
+        "mpi_pow_from", "mpi_cosh_sinh_from", "mpi_atan2_plan"]
 
 
 def make(rng, fn, n):
